@@ -312,7 +312,7 @@ def run_chunk(spec):
     observe.quiet_logs()
     res = Result()
     tier, ci = spec["tier"], spec["chunk"]
-    wd = Watchdog(res, 120.0)
+    wd = Watchdog(res, 400.0)
     only = spec.get("only_case")
     n = 0
     depth = 1 if tier == "quick" else 2
